@@ -555,7 +555,17 @@ def run_e2e_case(case):
                 if direct is None:
                     r['direct'] = {'status': r2['status'], 'err': r2.get('err')}
                 else:
-                    r['direct'] = {'status': 'accepted', 'cmp': compare(committed, direct)}
+                    cmpres = compare(committed, direct)
+                    if cmpres == 'eq':
+                        # also the SDL the system would DESCRIBE for both schemas must be the same text
+                        from edb.schema import ddl as s_ddl
+                        ta = s_ddl.sdl_text_from_schema(committed)
+                        tb = s_ddl.sdl_text_from_schema(direct)
+                        if ta != tb:
+                            la, lb = ta.split('\n'), tb.split('\n')
+                            k = next((j for j, (x, y) in enumerate(zip(la, lb)) if x != y), min(len(la), len(lb)))
+                            cmpres = {'sdl_diff': [la[max(0, k - 1):k + 3], lb[max(0, k - 1):k + 3]]}
+                    r['direct'] = {'status': 'accepted', 'cmp': cmpres}
             except Exception as e:  # noqa
                 r['direct'] = {'status': 'harness-error', 'err': errinfo(e)}
         if case.get('to_empty') and i == len(chain) - 1 and committed is not None:
